@@ -45,6 +45,7 @@ TABLE = {
         ("Proofs/DisconnectP.v", ["process_packet_reasons"]),
         ("Proofs/ServerP.v", ["process_packet_from_others", "server_frame"]),
         ("Proofs/ConnP.v", ["conn_inv_init", "process_packet_total", "process_packet_memory_bounded", "cstep_safe", "crun_safe", "flush_no_overflow"]),
+        ("Proofs/HooksP.v", ["process_local_client_safe", "warp_inv_strong"]),
     ], ""),
     "C08": ("A reliable message is released only after the peer really has it", [
         ("Proofs/AcksP.v", ["add_pending_ack_wf", "add_pending_ack_sound", "feed_sound", "feed_wf", "acked_largest_spec", "acked_largest_wf"]),
@@ -98,6 +99,7 @@ TABLE = {
     ], ""),
     "C05": ("Only a valid, unexpired, untampered token from its own address connects", [
         ("Proofs/NAuthP.v", ["connected_implies_pending_match", "pending_implies_valid_request", "connected_implies_valid_request", "client_implies_valid_request", "request_rejects", "request_rejects_noop", "request_validates_sealed", "token_bound_to_address", "token_bound_request_dropped", "token_rebinding_refuted"]),
+        ("Proofs/HooksP.v", ["fill_entries_lookup", "fill_entries_bound_to_address", "fill_entries_evicts_first"]),
     ], ""),
     "C07": ("renetcode survives hostile datagrams and tokens; no state change", [
         ("Proofs/NPacketP.v", ["decode_no_panic", "decode_unopened_keeps_replay", "decode_duplicate"]),
@@ -121,6 +123,7 @@ TABLE = {
         ("Proofs/NServerP.v", ["server_times_out_silent", "server_keeps_live", "pending_expires", "response_connects"]),
         ("Proofs/NAuthP.v", ["request_gets_challenge", "handshake_connects"]),
         ("Proofs/NSysP.v", ["handshake_two_good_rounds", "handshake_inv_preserved", "handshake_completes_after_loss", "handshake_eventually", "handshake_eventually_closed", "handshake_liveness", "failover_round", "waiting_round", "failover_then_connects"]),
+        ("Proofs/HooksP.v", ["unsecure_client_ok"]),
     ], ""),
     "C20": ("UDP netcode transport keeps message and handshake layers in lock-step", [
         ("Proofs/GlueP.v", ["nsstep_ids_step", "handle_result_lockstep", "tserver_update_lockstep", "tserver_update_events", "tserver_update_pushes_down", "app_step_lockstep", "tserver_send_lockstep", "tserver_disconnect_all_lockstep", "tclient_update_mirrors", "tclient_disconnect_spec", "client_recv_loop_spec", "recv_loop_surfaced", "payload_finds_connection", "wrun_inv", "world_events_alternate"]),
